@@ -143,7 +143,17 @@ def _reorder(s):
     return [s[0]] + [_reorder(c) for c in s[1:]]
 
 
-COMP = ['absent', 'scalar', 'same', 'sameflip', 'samereordered', 'flat5', 'otherdict', 'partialdict', 'range7', 'keysview']
+def _as_dictattr(o):
+    """the same structure with every dict turned into the library's own dictattr (whose keys() is a list-like, not a set-like view)"""
+    from pyg_base import dictattr
+    if isinstance(o, dict):
+        return dictattr({k: _as_dictattr(v) for k, v in o.items()})
+    if isinstance(o, (list, tuple)):
+        return type(o)(_as_dictattr(v) for v in o)
+    return o
+
+
+COMP = ['absent', 'scalar', 'same', 'sameflip', 'samereordered', 'samedictattr', 'flat5', 'otherdict', 'partialdict', 'range7', 'keysview']
 
 
 def companion(kind, s, tag):
@@ -153,6 +163,8 @@ def companion(kind, s, tag):
         return build(s, lambda p: tag + '/' + '/'.join(map(str, p)))
     if kind == 'sameflip':           # same lengths / keys, but every list is a tuple and every tuple a list: still matched element by element
         return build(_flip(s), lambda p: tag + '/' + '/'.join(map(str, p)))
+    if kind == 'samedictattr':       # the same keys, the companion's dicts being dictattr objects: still matched by key
+        return _as_dictattr(build(s, lambda p: tag + '/' + '/'.join(map(str, p))))
     if kind == 'samereordered':      # the same keys at every dict, inserted in the opposite order: dicts are matched by KEY
         return build(_reorder(s), lambda p: tag + '/' + '/'.join(map(str, p)))
     if kind == 'flat5':
@@ -171,7 +183,7 @@ def companion(kind, s, tag):
 def comp_at(kind, s, tag, path, default):
     if kind == 'absent':
         return default
-    if kind in ('same', 'sameflip', 'samereordered'):
+    if kind in ('same', 'sameflip', 'samereordered', 'samedictattr'):
         return tag + '/' + '/'.join(map(str, path))
     return companion(kind, s, tag)
 
@@ -244,11 +256,11 @@ def check_loop(case):
 
 # ------------------------------------------------------------------------------------------------ zipper, lens, as_list, as_tuple
 
-ZVALS = ['scalar', 'None', '[]', '[1]', '[1,2]', '[1,2,3]', '(1,2)', "'ab'", 'range(2)', '(5,)']
+ZVALS = ['scalar', 'None', '[]', '[1]', '[1,2]', '[1,2,3]', '(1,2)', "'ab'", 'range(2)', '(5,)', '([5,6],)', '[[5,6]]']      # the last two: ONE element, which is a list
 
 
 def zval(n):
-    return {'scalar': 7, 'None': None, '[]': [], '[1]': [1], '[1,2]': [1, 2], '[1,2,3]': [1, 2, 3], '(1,2)': (1, 2), "'ab'": 'ab', 'range(2)': range(2), '(5,)': (5,)}[n]
+    return {'scalar': 7, 'None': None, '[]': [], '[1]': [1], '[1,2]': [1, 2], '[1,2,3]': [1, 2, 3], '(1,2)': (1, 2), "'ab'": 'ab', 'range(2)': range(2), '(5,)': (5,), '([5,6],)': ([5, 6],), '[[5,6]]': [[5, 6]]}[n]
 
 
 def check_zip(case):
